@@ -199,6 +199,16 @@ func (s *scn) applyRuleOp(st CStep) {
 		return
 	}
 	c := s.chains[st.A%len(s.chains)]
+	if s.gov != nil && st.A%2 == 0 {
+		// half of the time on an appchain that is frozen right now, if there is one (rule updates are allowed there)
+		for _, x := range s.chains {
+			if s.gov.objStatus["chain:"+x.id] == "frozen" && x.rule != "fabsim" {
+				c = x
+				s.res.Count("probe_rule_operation_on_frozen_appchain")
+				break
+			}
+		}
+	}
 	if c.rule == "fabsim" {
 		return // Fabric-type appchains accept other rule sets; not modelled
 	}
